@@ -17,21 +17,27 @@
 
 enum FaultKind { FK_NONE = 0, FK_RETURN_FALSE, FK_NAN_RESIDUAL, FK_PINF_RESIDUAL, FK_NINF_RESIDUAL, FK_NAN_JACOBIAN, FK_COUNT };
 static const char* fk_name[] = {"none", "returns-false", "NaN-in-residual", "+inf-in-residual", "-inf-in-residual", "NaN-in-jacobian"};
-enum Family { FAM_AFFINE = 0, FAM_NONLINEAR, FAM_SINGULAR_START, FAM_COUNT };
-static const char* fam_name[] = {"affine-well-conditioned", "mildly-nonlinear-known-root", "singular-jacobian-at-start"};
+enum Family { FAM_AFFINE = 0, FAM_NONLINEAR, FAM_SINGULAR_START, FAM_AFFINE_1EM6, FAM_AFFINE_1EM9, FAM_AFFINE_1EM12, FAM_COUNT };
+static const char* fam_name[] = {"affine-well-conditioned", "mildly-nonlinear-known-root", "singular-jacobian-at-start", "affine-well-conditioned-scaled-1e-6", "affine-well-conditioned-scaled-1e-9", "affine-well-conditioned-scaled-1e-12"};
+// the scaled families are the affine system multiplied by a constant (same condition number, same Newton iterates); the convergence
+// threshold is scaled with them: Newton's method is invariant under such a scaling, an absolute pivot or determinant test is not
+static bool is_affine(int fam) { return fam == FAM_AFFINE || fam >= FAM_AFFINE_1EM6; }
+static double scale_of(int fam) { return fam == FAM_AFFINE_1EM6 ? 1e-6 : fam == FAM_AFFINE_1EM9 ? 1e-9 : fam == FAM_AFFINE_1EM12 ? 1e-12 : 1.0; }
 static const char* solver_name[] = {"TinyNewtonRaphsonSolver", "TinyBroydenSolver", "TinyBroyden2Solver", "TinyPowellDogLegNewtonRaphsonSolver", "TinyPowellDogLegBroydenSolver", "TinyLevenbergMarquardtSolver"};
 
 struct Plan { int family; int iterMax; unsigned fault_mask; int kind; };   // bit k of fault_mask: evaluation k is faulty
 struct Eval { std::vector<double> x; bool faulty; bool injected; };
 struct Log { std::vector<Eval> evals; };
+struct Runaway {};
 
 template <unsigned short N> void reference(int family, const tfel::math::tvector<N, double>& x, tfel::math::tvector<N, double>& f, tfel::math::tmatrix<N, N, double>* J) {
   if (J) for (unsigned short i = 0; i < N; ++i) for (unsigned short j = 0; j < N; ++j) (*J)(i, j) = 0;
   for (unsigned short i = 0; i < N; ++i) {
-    if (family == FAM_AFFINE) {
+    if (is_affine(family)) {
+      const double c = scale_of(family);
       const double ri = double(i + 1) / N, rm = i > 0 ? double(i) / N : 0, rp = i + 1 < N ? double(i + 2) / N : 0;
-      f(i) = 4 * (x(i) - ri) + (i > 0 ? (x(i - 1) - rm) : 0) + (i + 1 < N ? (x(i + 1) - rp) : 0);
-      if (J) { (*J)(i, i) = 4; if (i > 0) (*J)(i, i - 1) = 1; if (i + 1 < N) (*J)(i, i + 1) = 1; }
+      f(i) = c * (4 * (x(i) - ri) + (i > 0 ? (x(i - 1) - rm) : 0) + (i + 1 < N ? (x(i + 1) - rp) : 0));
+      if (J) { (*J)(i, i) = 4 * c; if (i > 0) (*J)(i, i - 1) = c; if (i + 1 < N) (*J)(i, i + 1) = c; }
     } else if (family == FAM_NONLINEAR) {
       const double ri = 0.5 + 0.1 * i, rp = 0.5 + 0.1 * (i + 1);
       const double ci = ri + 0.1 * ri * ri * ri + (i + 1 < N ? 0.05 * rp : 0);
@@ -76,12 +82,12 @@ struct Probe : public SOLVER_T<N, double, Probe<N>> {
   const Plan* plan = nullptr; Log* log = nullptr;
   Probe(const Plan& p, Log& l) : plan(&p), log(&l) {
     for (unsigned short i = 0; i < N; ++i) this->zeros(i) = (p.family == FAM_SINGULAR_START) ? 0. : 0.05 * (i + 1);
-    this->epsilon = 1.e-10;
+    this->epsilon = 1.e-10 * scale_of(p.family);
     this->iterMax = static_cast<unsigned short>(p.iterMax);
 #if SOLVER_INDEX == 1 || SOLVER_INDEX == 4
     { tfel::math::tvector<N, double> f; reference<N>(p.family == FAM_SINGULAR_START ? FAM_AFFINE : p.family, this->zeros, f, &(this->jacobian)); }
 #elif SOLVER_INDEX == 2
-    for (unsigned short i = 0; i < N; ++i) for (unsigned short j = 0; j < N; ++j) this->inv_jacobian(i, j) = (i == j) ? 0.25 : 0.;
+    for (unsigned short i = 0; i < N; ++i) for (unsigned short j = 0; j < N; ++j) this->inv_jacobian(i, j) = (i == j) ? 0.25 / scale_of(p.family) : 0.;
 #endif
 #if SOLVER_INDEX == 3 || SOLVER_INDEX == 4
     this->powell_dogleg_trust_region_size = 1.;
@@ -99,7 +105,7 @@ struct Probe : public SOLVER_T<N, double, Probe<N>> {
     Eval e; e.x.assign(this->zeros.begin(), this->zeros.end());
     const bool faulty = k < 32 && ((plan->fault_mask >> k) & 1u);
     e.injected = faulty; e.faulty = faulty && !(plan->kind == FK_NAN_JACOBIAN && HAS_USER_JACOBIAN); log->evals.push_back(e);   // a poisoned jacobian does not invalidate the residual itself
-    if (k > 4096) return false;   // runaway guard (reported by the evaluation bound oracle)
+    if (k > 4096) throw Runaway{};   // endless loop: the run is stopped here and reported by the evaluation-bound oracle
 #if HAS_USER_JACOBIAN
     reference<N>(plan->family, this->zeros, this->fzeros, &(this->jacobian));
 #else
@@ -128,7 +134,9 @@ struct Verdict { std::string cls = "ok"; std::string detail; bool converged = fa
 template <unsigned short N> Verdict run_plan(const Plan& p) {
   Verdict v; Log log;
   Probe<N> s(p, log);
-  const bool ok = s.solve();
+  bool ok = false;
+  try { ok = s.solve(); }
+  catch (Runaway&) { v.cls = "too-many-evaluations"; v.detail = "run stopped by the harness after " + std::to_string(log.evals.size()) + " residual evaluations for iterMax=" + std::to_string(p.iterMax) + " (the iteration budget no longer ends the loop)"; v.evals = log.evals.size(); for (auto& e : log.evals) if (e.injected) v.any_fault_hit = true; return v; }
   v.converged = ok; v.iter = s.iterations(); v.evals = log.evals.size();
   for (auto& e : log.evals) if (e.injected) v.any_fault_hit = true;
   auto fail = [&v](const char* c, const std::string& d) { if (v.cls == "ok") { v.cls = c; v.detail = d; } };
@@ -143,14 +151,14 @@ template <unsigned short N> Verdict run_plan(const Plan& p) {
       tfel::math::tvector<N, double> f; reference<N>(p.family, s.unknowns(), f, nullptr);
       double n2 = 0; bool fin = true; for (unsigned short i = 0; i < N; ++i) { n2 += f(i) * f(i); if (!std::isfinite(f(i))) fin = false; }
       if (!fin) fail("success-with-non-finite-residual", "residual at the returned unknowns is not finite");
-      else if (!(std::sqrt(n2) < 1.e-10 * (1 + 1e-12))) fail("success-without-criterion", "||f(returned unknowns)|| = " + std::to_string(std::sqrt(n2)) + " >= epsilon");
+      else if (!(std::sqrt(n2) < 1.e-10 * scale_of(p.family) * (1 + 1e-12))) fail("success-without-criterion", "||f(returned unknowns)|| = " + std::to_string(std::sqrt(n2)) + " >= epsilon");
       for (unsigned short i = 0; i < N; ++i) if (!std::isfinite(s.unknowns()(i))) fail("success-with-non-finite-unknowns", "returned unknowns are not finite");
     }
   }
 #if SOLVER_INDEX == 0
   // bounded liveness (Newton, affine, rejected evaluations only): once the faults stop, one clean evaluation, one correction
   // and one more evaluation are enough; demanded only when that many iterations are left after the last fault
-  if (p.family == FAM_AFFINE && p.kind != FK_NAN_JACOBIAN) {
+  if (is_affine(p.family) && p.kind != FK_NAN_JACOBIAN) {
     int last = -1; for (int k = 0; k < 32; ++k) if ((p.fault_mask >> k) & 1u) last = k;
     if (!ok && p.iterMax >= 2 * (last + 1) + 3) fail("no-convergence-after-faults-stopped", "Newton on an affine system did not converge although the last fault was at evaluation " + std::to_string(last) + " and iterMax=" + std::to_string(p.iterMax));
   }
@@ -182,7 +190,7 @@ int main(int argc, char** argv) {
   for (int n : sizes) for (int fam = 0; fam < FAM_COUNT; ++fam) for (int ii = 0; ii < niters; ++ii) {
     const int im = iters[ii], npos = std::min(im + 2, tier ? 14 : 9);
     for (unsigned mask = 0; mask < (1u << npos); ++mask) {
-      if (__builtin_popcount(mask) > 3) continue;
+      if (__builtin_popcount(mask) > (fam >= FAM_AFFINE_1EM6 ? 1 : 3)) continue;   // the scaled copies of the affine family: at most one fault
       for (int kind = (mask ? 1 : 0); kind < (mask ? int(FK_COUNT) : 1); ++kind) {
         Plan p{fam, im, mask, kind};
         Verdict v = dispatch(n, p);
